@@ -102,3 +102,127 @@ Proof. exact set_eid_response_decodes. Qed.
 Print Assumptions C12_own_answers_go_through_the_own_decoder.
 Print Assumptions C12_get_endpoint_id_answer_is_rejected_by_the_own_decoder.
 Print Assumptions C12_set_endpoint_id_answer_decodes.
+
+(* ---------- whole conversations (proofs/Conversation.v) ----------
+   Requester A (configuration gA, context cA at any point of a history) calls one of its request encoders; the n bytes
+   it wrote are handed to responder B's process_packet (gB, cB, response buffer of at least 64 bytes); the bytes B
+   wrote are handed back to A's decode_packet.  Each theorem gives B's new context, the length B reports, what A's
+   decoder says, the data A reads, and that the answer is addressed back to A (byte 0 = A's address as SMBus
+   destination, byte 5 = A's address as destination EID, the first twelve bytes as a whole = answer_head).
+   This composes C06/C16 (what the encoder writes), C09/C11 (it is an accepted request), C12-C15 (the answer) and
+   C01 (the answer through the decoder) into one statement per command, with no hypothesis on the bytes in between. *)
+Require Import StepsRecv Conversation.
+
+Theorem C12_conversation_set_eid : forall ovf gA cA gB cB a ls wA bufA outA n bufB,
+  wf_cfg gA -> cinv gA cA -> wf_cfg gB -> cinv gB cB -> (64 <= length bufB)%nat ->
+  args_okb true 1 a ls = true -> (arg a 1 = 0 \/ arg a 1 = 1) ->
+  encode_call ovf cA true 1 a ls = Some wA -> wA bufA = (outA, Val (Some n)) ->
+  exists outB,
+    step ovf cB (OProcess (firstn n outA) bufB) =
+      (set_eid_req (set_eid_resp cB (arg a 2)) (arg a 2),
+       XProcess (inl ((MCtpControl, (11%nat, 2%nat)), Some 16%nat)) outB) /\
+    decode_packet (firstn 16 outB) = ok (MCtpControl, (12%nat, 3%nat)) /\
+    sub (firstn 16 outB) 12 3 = [0; arg a 2; 0] /\
+    nth 0 outB 0 = (g_addr gA mod 128) * 2 /\ nth 5 outB 0 = g_addr gA /\
+    firstn 12 outB = answer_head (g_addr gA) (g_addr gB) 1 0 3.
+Proof. exact conversation_set_eid. Qed.
+
+Theorem C12_conversation_set_discovered_flag : forall ovf gA cA gB cB a ls wA bufA outA n bufB,
+  wf_cfg gA -> cinv gA cA -> wf_cfg gB -> cinv gB cB -> (64 <= length bufB)%nat ->
+  args_okb true 1 a ls = true -> arg a 1 = 3 ->
+  encode_call ovf cA true 1 a ls = Some wA -> wA bufA = (outA, Val (Some n)) ->
+  exists outB,
+    step ovf cB (OProcess (firstn n outA) bufB) =
+      (cB, XProcess (inl ((MCtpControl, (11%nat, 2%nat)), Some 16%nat)) outB) /\
+    decode_packet (firstn 16 outB) = err MCtpControl (DControlMessage (CEUnsuccessfulCompletionCode 2)) /\
+    nth 0 outB 0 = (g_addr gA mod 128) * 2 /\ nth 5 outB 0 = g_addr gA /\
+    firstn 12 outB = answer_head (g_addr gA) (g_addr gB) 1 2 3.
+Proof. exact conversation_set_discovered_flag. Qed.
+
+Theorem C12_conversation_get_eid : forall ovf gA cA gB cB a ls wA bufA outA n bufB,
+  wf_cfg gA -> cinv gA cA -> wf_cfg gB -> cinv gB cB -> (64 <= length bufB)%nat ->
+  args_okb true 2 a ls = true ->
+  encode_call ovf cA true 2 a ls = Some wA -> wA bufA = (outA, Val (Some n)) ->
+  exists outB,
+    step ovf cB (OProcess (firstn n outA) bufB) =
+      (cB, XProcess (inl ((MCtpControl, (11%nat, 0%nat)), Some 16%nat)) outB) /\
+    decode_packet (firstn 16 outB) = err MCtpControl (DControlMessage CEInvalidRequestDataLength) /\
+    sub (firstn 16 outB) 12 3 = [c_eid_resp cB; 0; 0] /\
+    nth 0 outB 0 = (g_addr gA mod 128) * 2 /\ nth 5 outB 0 = g_addr gA /\
+    firstn 12 outB = answer_head (g_addr gA) (g_addr gB) 2 0 3.
+Proof. exact conversation_get_eid. Qed.
+
+Theorem C12_conversation_get_uuid : forall ovf gA cA gB cB a ls wA bufA outA n bufB,
+  wf_cfg gA -> cinv gA cA -> wf_cfg gB -> cinv gB cB -> (64 <= length bufB)%nat ->
+  args_okb true 3 a ls = true ->
+  encode_call ovf cA true 3 a ls = Some wA -> wA bufA = (outA, Val (Some n)) ->
+  exists outB,
+    step ovf cB (OProcess (firstn n outA) bufB) =
+      (cB, XProcess (inl ((MCtpControl, (11%nat, 0%nat)), Some 29%nat)) outB) /\
+    decode_packet (firstn 29 outB) = ok (MCtpControl, (12%nat, 16%nat)) /\
+    sub (firstn 29 outB) 12 16 = c_uuid cB /\
+    nth 0 outB 0 = (g_addr gA mod 128) * 2 /\ nth 5 outB 0 = g_addr gA /\
+    firstn 12 outB = answer_head (g_addr gA) (g_addr gB) 3 0 16.
+Proof. exact conversation_get_uuid. Qed.
+
+Theorem C12_conversation_get_version : forall ovf gA cA gB cB a ls wA bufA outA n bufB,
+  wf_cfg gA -> cinv gA cA -> wf_cfg gB -> cinv gB cB -> (64 <= length bufB)%nat ->
+  args_okb true 4 a ls = true ->
+  encode_call ovf cA true 4 a ls = Some wA -> wA bufA = (outA, Val (Some n)) ->
+  exists outB,
+    step ovf cB (OProcess (firstn n outA) bufB) =
+      (cB, XProcess (inl ((MCtpControl, (11%nat, 1%nat)), Some 18%nat)) outB) /\
+    decode_packet (firstn 18 outB) = ok (MCtpControl, (12%nat, 5%nat)) /\
+    sub (firstn 18 outB) 12 5 = [1; 241; 243; 241; 0] /\
+    nth 0 outB 0 = (g_addr gA mod 128) * 2 /\ nth 5 outB 0 = g_addr gA /\
+    firstn 12 outB = answer_head (g_addr gA) (g_addr gB) 4 0 5.
+Proof. exact conversation_get_version. Qed.
+
+Theorem C12_conversation_get_msg_types : forall ovf gA cA gB cB a ls wA bufA outA n bufB,
+  wf_cfg gA -> cinv gA cA -> wf_cfg gB -> cinv gB cB -> valid_cfg gB = true -> (64 <= length bufB)%nat ->
+  args_okb true 5 a ls = true ->
+  encode_call ovf cA true 5 a ls = Some wA -> wA bufA = (outA, Val (Some n)) ->
+  let k := S (length (g_msg_types gB)) in
+  exists outB,
+    step ovf cB (OProcess (firstn n outA) bufB) =
+      (cB, XProcess (inl ((MCtpControl, (11%nat, 0%nat)), Some (13 + k)%nat)) outB) /\
+    decode_packet (firstn (13 + k) outB) = ok (MCtpControl, (12%nat, k)) /\
+    sub (firstn (13 + k) outB) 12 k = N.of_nat (length (g_msg_types gB)) :: g_msg_types gB /\
+    nth 0 outB 0 = (g_addr gA mod 128) * 2 /\ nth 5 outB 0 = g_addr gA /\
+    firstn 12 outB = answer_head (g_addr gA) (g_addr gB) 5 0 k.
+Proof. exact conversation_get_msg_types. Qed.
+
+Theorem C12_conversation_get_vendor : forall ovf gA cA gB cB a ls wA bufA outA n bufB v,
+  let nB := N.of_nat (length (g_vendor_ids gB)) in
+  let i := arg a 1 in
+  let next := if i + 1 =? nB then 255 else i + 1 in
+  let k := S (length (enc_vendor_set v)) in
+  wf_cfg gA -> cinv gA cA -> wf_cfg gB -> cinv gB cB -> valid_cfg gB = true -> (64 <= length bufB)%nat ->
+  args_okb true 6 a ls = true -> i < nB -> nth_error (g_vendor_ids gB) (N.to_nat i) = Some v ->
+  encode_call ovf cA true 6 a ls = Some wA -> wA bufA = (outA, Val (Some n)) ->
+  exists outB,
+    step ovf cB (OProcess (firstn n outA) bufB) =
+      (set_selector cB next, XProcess (inl ((MCtpControl, (11%nat, 1%nat)), Some (13 + k)%nat)) outB) /\
+    decode_packet (firstn (13 + k) outB) = ok (MCtpControl, (12%nat, k)) /\
+    sub (firstn (13 + k) outB) 12 k = next :: enc_vendor_set v /\
+    nth 0 outB 0 = (g_addr gA mod 128) * 2 /\ nth 5 outB 0 = g_addr gA /\
+    firstn 12 outB = answer_head (g_addr gA) (g_addr gB) 6 0 k.
+Proof. exact conversation_get_vendor. Qed.
+
+Theorem C12_conversation_unanswerable_panics : forall ovf gA cA gB cB id a ls wA bufA outA n bufB,
+  wf_cfg gA -> cinv gA cA -> id = 7 \/ id = 8 -> args_okb true id a ls = true ->
+  encode_call ovf cA true id a ls = Some wA -> wA bufA = (outA, Val (Some n)) ->
+  let p := firstn n outA in
+  accepted_request p = true /\ ctl_cmd p = id /\
+  process_panic_class ovf gB p = 1015 /\ recv_panic_class ovf gB p = 1015 /\
+  step ovf cB (OProcess p bufB) = (cB, XPanic bufB).
+Proof. exact conversation_unanswerable_panics. Qed.
+
+Print Assumptions C12_conversation_set_eid.
+Print Assumptions C12_conversation_set_discovered_flag.
+Print Assumptions C12_conversation_get_eid.
+Print Assumptions C12_conversation_get_uuid.
+Print Assumptions C12_conversation_get_version.
+Print Assumptions C12_conversation_get_msg_types.
+Print Assumptions C12_conversation_get_vendor.
+Print Assumptions C12_conversation_unanswerable_panics.
